@@ -82,8 +82,15 @@ func (t *T) GetRemovePrefixKey() string {
 	return t.key[1:]
 }
 
+// GetKeyValue returns the value of a key-value pair. A hash can also hold a plain value
+// (an element pushed into a variable that the argument expression itself had just turned
+// into a hash, a literal destructured next to an array): such a value stands for itself.
 func (t *T) GetKeyValue() *T {
-	return t.val.(*T)
+	if valueT, ok := t.val.(*T); ok {
+		return valueT
+	}
+
+	return t
 }
 
 // Block parameter accessors
